@@ -135,6 +135,13 @@ def ys(draw, m, kinds=None, nonconstant=False):
         y = [c] * m
     elif kind == "sign":
         y = [((-1) ** i) * v for i, v in enumerate(draw(st.lists(fl(0.1, 10.0), min_size=m, max_size=m)))]
+    elif kind == "burst":
+        # large dynamic range (not in the default list): values of order one with a few bursts 1e7..1e13 times larger
+        y = [float(v) for v in draw(st.lists(st.one_of(st.integers(1, 20).map(float), fl(0.5, 10.0)), min_size=m, max_size=m))]
+        nb = draw(st.integers(1, max(1, min(3, m // 3))))
+        for _ in range(nb):
+            i = draw(st.integers(0, max(0, m - 2)))
+            y[i] = y[i] * 10.0 ** draw(st.integers(7, 13))
     else:
         y = [1e6 + v for v in draw(st.lists(fl(-10.0, 10.0), min_size=m, max_size=m))]
     # magnitudes next to the bottom of the normal range are snapped to zero: products value * gap would underflow
